@@ -7,6 +7,8 @@ import numpy as np
 from common import call_impl, coq_bool, coq_list, coq_nat, flv, q, qv
 
 TOL = Fr(1e-8)  # tol.merge as the binary64 value
+REL = Fr(1, 10 ** 12)  # oracle slack relative to the coordinate magnitude (a handful of flops, no cancellation beyond the offset)
+UNSIGNED_FACES = True  # generate uint8/uint32/uint64 face arrays: on once fixes/C02-unsigned-faces.diff is in /repo
 TRUSTED = ["Coq 8.16.1 kernel, vm_compute for the correspondence evaluation and the finite sign-pattern claims",
            "axioms (Print Assumptions): ClassicalDedekindReals.sig_forall_dec, sig_not_dec, "
            "FunctionalExtensionality.functional_extensionality_dep, Classical_Prop.classic (all Coq stdlib Reals)",
@@ -18,9 +20,11 @@ ASSUMPTIONS = ["theorems are about exact real arithmetic; binary64 rounding is c
                "correspondence check on sampled inputs whose classification is exact",
                "the kernel snaps every per-vertex offset within 1e-8 of the plane to 0; theorems are stated both on the true "
                "offsets (with a tolerance slack) and on the snapped ones (exact); no 'exactly on the plane' hypothesis is used",
-               "output dtypes and shapes (float64 / int64 / int64, (k,3) / (m,3) / (m,)) are validated by the correspondence "
-               "check and the oracle on every case (incl. float32 / float16 / integer vertex arrays and int32 faces), not proved: "
-               "the model carries no dtype",
+               "output dtypes: the model carries a dtype table (return path of slice_faces_plane -> dtypes; the wrapper's two "
+               "np.asarray conversions, /repo 1119c57 and fixes/C02-unsigned-faces.diff, and its three assertions); the dtype "
+               "theorems are look-ups in that table (listed as DEFINITIONAL); the table is tied to the code by the correspondence "
+               "check on wrapper and kernel calls with float32 / float16 / integer vertex arrays and int8..int64 / unsigned face "
+               "arrays — validated, not proved; shapes ((k,3) / (m,3) / (m,)) are validated only",
                "negative (NumPy wrap-around) face entries are modelled by a separate layer (slice_faces_plane_z); the geometric "
                "theorems are stated for non-negative entries, to which that layer reduces",
                "coordinate scales above ~2^18 are not generated: there the binary64 rounding of a cut vertex can exceed the "
@@ -97,6 +101,8 @@ def gen_mesh_case(rng, tier, profile):
     near = (plane_kind == "axis") and rng.random() < 0.35
     # oblique planes: vertices strictly inside the band (offset k |n|^2 <= 5.6e-9), snapped to the plane by the kernel
     near_oblique = (plane_kind == "dyadic") and rng.random() < 0.3
+    oblique_side = rng.choice([1.0, -1.0])
+    near_axis_shift = rng.choice([0, 0, -3, 4, 10, 17])  # axis planes: exact offsets at any scale of the rest of the mesh
     vs = []
     has_near = False
     for _ in range(nv):
@@ -107,10 +113,17 @@ def gen_mesh_case(rng, tier, profile):
             if near and rng.random() < 0.5:
                 # inside / outside the tolerance band, never within 1e-12 of +-1e-8 (the property excludes that)
                 off = rng.choice([0.5e-8, -0.5e-8, 0.9e-8, -0.9e-8, 1.1e-8, -1.1e-8, 2e-8, -2e-8, 1e-9, -1e-9])
-                v[ax] = ref[ax] + off / abs(n[ax])
+                v = v + [("near", off / abs(n[ax]))]  # absolute offset, added after the mesh is scaled
                 has_near = True
             elif near_oblique and rng.random() < 0.5:
-                k = rng.choice([1.0, -1.0, 0.5, -0.5, 0.25]) * 2.0 ** -31
+                # inside the band on either side (|offset| <= 5.6e-9); or just OUTSIDE it (offset 1.05e-8 .. 4.5e-8 depending on
+                # |n|^2) on ONE side per mesh: an edge between two inexactly computed near-band offsets of opposite sign is
+                # ill-conditioned (cut parameter = ratio of two rounding-level quantities) and would only test float noise
+                if rng.random() < 0.6:
+                    k = rng.choice([1.0, -1.0, 0.5, -0.5, 0.25]) * 2.0 ** -31
+                else:
+                    nn2 = sum(x * x for x in n)
+                    k = oblique_side * rng.choice([1.05e-8, 1.1e-8, 2e-8, 4e-8]) / nn2
                 v = [v[j] + k * n[j] for j in range(3)]
                 has_near = True
         elif plane_kind == "float" and r < on_frac * 0.5:
@@ -119,12 +132,19 @@ def gen_mesh_case(rng, tier, profile):
             v = [_grid(rng) for _ in range(3)]
         vs.append(v)
     if has_near:
-        scale, shift = 1.0, 0
+        shift = near_axis_shift if plane_kind == "axis" else 0
+        scale = 2.0 ** shift
     # coincident vertices: distinct indices, equal coordinates
     if nv >= 2 and rng.random() < 0.2:
         for _ in range(rng.randint(1, 3)):
-            vs[rng.randrange(nv)] = list(vs[rng.randrange(nv)])
-    vs = [[x * scale for x in v] for v in vs]
+            vs[rng.randrange(nv)] = list(vs[rng.randrange(nv)])  # (copies a pending near-band offset too)
+    scaled = []
+    for v in vs:
+        w = [x * scale for x in v[:3]]
+        if len(v) == 4:
+            w[ax] = ref[ax] * scale + v[3][1]
+        scaled.append(w)
+    vs = scaled
     ref = [x * scale for x in ref]
     if kind == "generic" and u < p_empty_v + p_empty_f + p_behind and nv:
         # plane moved so that the whole mesh is behind it (or exactly on it)
@@ -175,19 +195,40 @@ def gen_mesh_case(rng, tier, profile):
                                             ("on_plane" if on_frac else "generic"))
     # vertex arrays that are not float64 (values exactly representable in the chosen dtype)
     vdtype = "float64"
-    if vs and not has_near and rng.random() < (0.06 if profile == "geom" else 0.2):
+    if not has_near and rng.random() < (0.06 if profile == "geom" else 0.2):
         vdtype = rng.choice(["float32", "float32", "int64", "int32", "float16"] if abs(shift) <= 6 else ["float32"])
-        vs = np.array(vs, dtype=np.float64).astype(vdtype).astype(np.float64).tolist()
-    return {"kind": kind, "vdtype": vdtype, "vertices": vs, "faces": fs, "ref": ref, "normal": n, "mask": mask,
+        vs = np.array(vs, dtype=np.float64).reshape(-1, 3).astype(vdtype).astype(np.float64).tolist()
+    # face arrays in other integer dtypes (entries <= 13 fit everywhere); unsigned ones only without negative entries
+    fdtype = "int64"
+    if rng.random() < (0.1 if profile == "geom" else 0.3):
+        pool = ["int32", "int32", "int16", "int8"]
+        if UNSIGNED_FACES and not any(i < 0 for f in fs for i in f):
+            pool += ["uint8", "uint32", "uint32", "uint64"]
+        fdtype = rng.choice(pool)
+    # buckets for the evidence histogram: scale of the coordinates, non-default dtypes, kind of mask
+    tags = []
+    if shift <= -31:
+        tags.append("scale<=2^-31")
+    elif shift <= -8:
+        tags.append("scale2^-30..-8")
+    elif shift >= 7:
+        tags.append("scale>=2^7")
+    if vdtype != "float64":
+        tags.append("v:" + vdtype)
+    if fdtype != "int64":
+        tags.append("f:" + fdtype)
+    tags.append("mask:" + ("none" if mask is None else ("empty" if not mask else ("allF" if not any(mask) else
+                                                                                 ("allT" if all(mask) else "mixed")))))
+    return {"kind": kind, "buckets": tags, "vdtype": vdtype, "fdtype": fdtype, "vertices": vs, "faces": fs, "ref": ref, "normal": n, "mask": mask,
             "ret_face_mapping": rng.random() < (0.6 if profile == "geom" else 0.75),
-            "int32": rng.random() < (0.1 if profile == "geom" else 0.3), "has_near": has_near,
+            "int32": fdtype == "int32", "has_near": has_near,
             "inexact": plane_kind == "float"}
 
 
 # ---- running the implementation -------------------------------------------------------------------------------
 def arrays(c):
     V = np.array(c["vertices"], dtype=np.float64).reshape(-1, 3).astype(c.get("vdtype", "float64"))
-    Fa = np.array(c["faces"], dtype=np.int32 if c.get("int32") else np.int64).reshape(-1, 3)
+    Fa = np.array(c["faces"], dtype=c.get("fdtype", "int32" if c.get("int32") else "int64")).reshape(-1, 3)
     ref = np.array(c["ref"], dtype=np.float64)
     n = np.array(c["normal"], dtype=np.float64)
     mask = None if c["mask"] is None else np.array(c["mask"], dtype=bool).reshape(-1)
@@ -275,7 +316,9 @@ def coq_slice_case(c, o):
             coq_bool(main["v_dtype"] == "float64"), coq_bool(main["f_dtype"] == "int64"),
             coq_bool((not ret) or main["map_dtype"] == "int64"))
     vdt = {"float64": "VF64", "float32": "VF32", "float16": "VF16"}.get(c.get("vdtype", "float64"), "VInt")
-    return "%s %s %s %s %s %s %s" % ("CSliceZ" if neg else "CSlice " + vdt, vs, fs, qv(c["ref"]), qv(c["normal"]), mask, obs)
+    fdt = {"int64": "I64", "int32": "I32", "int16": "I16", "int8": "I8", "uint8": "U8", "uint32": "U32",
+           "uint64": "U64"}[c.get("fdtype", "int32" if c.get("int32") else "int64")]
+    return "%s %s %s %s %s %s %s" % ("CSliceZ" if neg else "CSlice %s %s" % (vdt, fdt), vs, fs, qv(c["ref"]), qv(c["normal"]), mask, obs)
 
 
 # ---- exact arithmetic helpers for the oracles -------------------------------------------------------------------
@@ -365,7 +408,7 @@ def close_vec(a, b, rel, mag):
     return all(abs(x - y) <= rel * mag for x, y in zip(a, b))
 
 
-def geometry_failure(c, full, rel=Fr(1, 10 ** 9)):
+def geometry_failure(c, full, rel=REL):
     """The C01 text on a result that carries provenance (`full` = describe() of a ret_face_mapping=True call).
     Returns None or a message."""
     V = [F3(v) for v in c["vertices"]]
@@ -440,9 +483,11 @@ def in_domain(c):
     return all(-nv <= i < nv for f in c["faces"] for i in f)
 
 
-def negative_index_class(c, o, failure):
+def negative_index_class(c, o, failure, disagrees=False):
     """known finding `negative_index_survives`: a face array with wrapping (negative) entries, and the call raised the
     ValueError of np.bincount — matched on the input class and the exception, never on the property id alone."""
+    if disagrees:  # the model says exactly when this error occurs: a disagreement is never the known finding
+        return None
     if not failure or "ValueError" not in failure:
         return None
     if not any(i < 0 for f in c.get("faces", []) for i in f):
@@ -455,3 +500,8 @@ def negative_index_class(c, o, failure):
         return False
 
     return "negative_index_survives" if raised(o) else None
+
+
+def histogram_kind(c):
+    """kind used in the evidence histogram: base kind plus the scale / dtype / mask buckets"""
+    return c["kind"] + "".join(" " + t for t in c.get("buckets", []))
